@@ -184,6 +184,8 @@ def run_g1_g2_capped(ctx):
             ctx.assume(v != 0)
     for v in nb.Bpxy.centre.flat:
         ctx.assume(v != 0)
+        # every region of a mesh has the same sign of Bp (geometry1 raises otherwise): the neighbour too
+        ctx.assume(r.bpsign * v > 0)
     bp_before = numpy.array(r.Bpxy.ylow, dtype=object).copy()
     M.MeshRegion.geometry2(r)
     with spec_mode():
@@ -191,10 +193,11 @@ def run_g1_g2_capped(ctx):
             G = lambda n: getattr(getattr(r, n), l)
             for idx in numpy.ndindex(*G("dphidy").shape):
                 ctx.oblige(G("dphidy")[idx] * (G("Bpxy")[idx] * G("Rxy")[idx]) == hy.__getattribute__(l)[idx] * G("Btxy")[idx], "dphidy = hy Btxy/(Bpxy Rxy) with the FINAL Bpxy @%s%s" % (l, list(idx)))
-        m0, m1 = r.Bpxy.centre[0, 0], nb.Bpxy.centre[0, -1]
+        sg = r.bpsign  # Bpxy is signed; the cap is a statement about |Bp| (F22)
+        m0, m1 = sg * r.Bpxy.centre[0, 0], sg * nb.Bpxy.centre[0, -1]
         low = ite(m0 <= m1, m0, m1)
         now = r.Bpxy.ylow
-        ctx.oblige(Or(now[0, 0] == bp_before[0, 0], And(bp_before[0, 0] < low, now[0, 0] == low)), "cap: the y-face Bp at the X-point is unchanged or raised to min(Bp of the two adjacent cell centres)")
+        ctx.oblige(Or(now[0, 0] == bp_before[0, 0], And(sg * bp_before[0, 0] < low, sg * now[0, 0] == low)), "cap: the y-face Bp at the X-point is unchanged or raised IN MAGNITUDE to min(|Bp| of the two adjacent cell centres), sign kept")
         ctx.oblige(And(*[now[i, j] == bp_before[i, j] for i in range(now.shape[0]) for j in range(1, now.shape[1])]), "cap touches only the faces at the X-point end")
     return r
 
@@ -287,6 +290,7 @@ def build(S):
             for o in (False, True):
                 S.contract("DDX[inner=%s,outer=%s]" % (i, o), FN_DDX, make_ddx_run(i, o), shape="nx=2, ny=1")
         add_ddy(S)
+        S.under_contract("hypnotoad.core.mesh:MeshRegion.capBpYlowXpoint")
         S.contract("geometry1;geometry2[cap_Bp_ylow_xpoint]", "hypnotoad.core.mesh:MeshRegion.geometry2", run_g1_g2_capped, expected_exceptions=(ValueError,), raises_ok=g1_raises_ok, shape="nx=1, ny=3, X-point at the lower inner corner", max_paths=400)
         from . import topokit as tk
 
